@@ -113,6 +113,9 @@ pub fn prop() -> HistProp {
     p.fees = true;
     let mut w = Weights::trading();
     w.vcfg = 4;
+    w.ecfg = 3;
+    w.rewire = 2;
+    w.whitelist = 2;
     HistProp {
         id: "C12",
         level: "exploration",
